@@ -8,6 +8,15 @@
 // otherwise reuse honest signatures that were already observed on the wire (`Kb`).
 // Per honest node the abstract event list and the observations are recorded exactly as in step.rs and judged by
 // `step_verdict`; the scenario as a whole is judged by `multi_verdict` (coq/CorrMulti.v).
+//
+// Usage:  multi run --seed S --cases K --out DIR [--only k] [--script fair|equivocation|double_vote|stale_tc|nonconsecutive|partition|random] [--hex]
+// Scenario k uses strategy STRATS[k mod 8] unless --script forces one. Output: cases_multi_{0..7}.v, meta_multi_{0..7}.json.
+// Case numbers: 10*k + rank = the step-mode case of honest node `rank` of scenario k (layout of step_verdict);
+//               10*k + 9    = the scenario verdict [all; per-node correspondence; agreement; own logs are chains; one wire vote per round]
+//               (followed in the Coq output by a (CONFLICT, 10*k+9, [round; author; round; author]) line naming two conflicting commits).
+// The meta entry of case 10*k+9 holds the readable schedule (who received what, when, from whom, and what it did), the commit
+// logs, and the serialized messages the Byzantine members crafted (all messages with --hex); every random choice derives from
+// case_rng(seed, 11, k), so `--only k` replays scenario k exactly.
 use consensus::verif::*;
 use consensus::Committee;
 use crypto::Hash as _;
